@@ -563,6 +563,9 @@ SPECS["C04"] = {
         {"name": "H2-loops", "pkg": "interpreter", "files": _C04, "fn": "VerifC04Loops",
          "what": "range/list/map/condition loops, nested break/continue", "reach": ["evaluated"],
          "quick": {"unwind": 60, "wall_s": 600, "max_steps": 3000000}, "thorough": {"unwind": 60, "wall_s": 3000, "max_steps": 3000000}},
+        {"name": "H2-loop-nest", "pkg": "interpreter", "files": _C04, "fn": "VerifC04LoopNest",
+         "what": "4x4 loop kinds (range, list, map, condition) nested, break/continue at symbolic positions in both loops, optionally inside a function with return from the inner loop", "reach": ["evaluated"],
+         "quick": {"unwind": 80, "wall_s": 900, "max_steps": 3000000}, "thorough": {"unwind": 80, "wall_s": 3000, "max_steps": 3000000}},
         {"name": "H3-guards-return", "pkg": "interpreter", "files": _C04, "fn": "VerifC04Guards",
          "what": "if/elif/else guards, return from nested functions", "reach": ["evaluated"],
          "quick": {"unwind": 60, "wall_s": 900}, "thorough": {"unwind": 60, "wall_s": 3000}},
